@@ -8,6 +8,27 @@ verus! {
 //@@ include prelude/std_specs.rs
 //@@ include prelude/sched.rs
 
+pub open spec fn sib_set(h: Heap, t: Tid) -> Set<Tid> {
+    if parent_tid(t) is Some { children_of(h, parent_tid(t)->Some_0).remove(t) } else { Set::empty() }
+}
+pub proof fn lemma_seq_set(v: Seq<Arc<Task>>, s: Set<Tid>)
+    requires tids(v).to_set() == s
+    ensures forall|t: Tid| #[trigger] s.contains(t) <==> exists|j: int| 0 <= j < v.len() && (#[trigger] v[j]).id@ == t
+{
+    assert forall|t: Tid| #[trigger] s.contains(t) <==> exists|j: int| 0 <= j < v.len() && (#[trigger] v[j]).id@ == t by {
+        if s.contains(t) {
+            assert(tids(v).contains(t));
+            let j = choose|j: int| 0 <= j < tids(v).len() && tids(v)[j] == t;
+            assert(v[j].id@ == t);
+        }
+        if exists|j: int| 0 <= j < v.len() && (#[trigger] v[j]).id@ == t {
+            let j = choose|j: int| 0 <= j < v.len() && (#[trigger] v[j]).id@ == t;
+            assert(tids(v)[j] == t);
+            assert(tids(v).contains(t));
+        }
+    }
+}
+pub open spec fn needs_has(needs: Seq<String>, id: Seq<char>) -> bool { exists|k: int| 0 <= k < needs.len() && #[trigger] needs[k]@ == id }
 // ---- stubs that later slices replace by extracted code
 impl Task {
 //@@ extract file=acts/src/scheduler/process/task.rs in="impl Task" item="fn exec" name=Task::exec props=C02,C05
@@ -29,13 +50,44 @@ impl Task {
             //# P-resume-fwd
             final(h).wf() && fwd(*old(h), *final(h)),
 //@@ end
-    // is_ready may demote an else-branch to Skipped; a `true` answer changes nothing
-    #[verifier::external_body]
-    pub fn is_ready(&self, Tracked(h): Tracked<&mut Heap>) -> (r: bool)
-        requires old(h).wf(), wf_task(*old(h), *self)
-        ensures final(h).wf(), fwd(*old(h), *final(h)), r ==> *final(h) == *old(h), final(h).cur == old(h).cur,
-                forall|t: Tid| t != self.id@ && old(h).has(t) ==> final(h).tasks[t] == old(h).tasks[t],
-    { unimplemented!() }
+//@@ extract file=acts/src/scheduler/process/task.rs in="impl Task" item="fn is_ready" name=Task::is_ready props=C04,C01,C02
+//@@ opt rewrites=R1,R2,R3,R5,R13,R22
+//@@ rw R7 `n . needs . contains ( & iter . node . id ( ) . to_string ( ) )` => `vec_has(&n.needs, iter.node.id())`
+//@@ spec
+        requires old(h).wf(), wf_task(*old(h), *self), !st_terminal(old(h).st(self.id@))
+        ensures
+            //# D2-ready-frame
+            final(h).wf() && fwd(*old(h), *final(h)) && final(h).cur == old(h).cur && (ret ==> *final(h) == *old(h))
+                && forall|t: Tid| t != self.id@ && #[trigger] old(h).has(t) ==> final(h).tasks[t] == old(h).tasks[t],
+            //# D2-non-branch-always-ready
+            !(self.node.content is Branch) ==> ret && *final(h) == *old(h),
+            //# D2-needs-branch-ready-iff-a-needed-sibling-finished
+            self.node.content is Branch && self.node.content->Branch_0.needs@.len() > 0 ==> *final(h) == *old(h)
+                && (ret <==> exists|t: Tid| #[trigger] sib_set(*old(h), self.id@).contains(t) && st_terminal(old(h).st(t)) && needs_has(self.node.content->Branch_0.needs@, old(h).tasks[t].node.id@)),
+            //# D2-else-branch-ready-iff-all-siblings-skipped
+            self.node.content is Branch && self.node.content->Branch_0.needs@.len() == 0 && self.node.content->Branch_0.r#else
+                ==> (ret <==> forall|t: Tid| #[trigger] sib_set(*old(h), self.id@).contains(t) ==> old(h).st(t) is Skipped),
+            //# D2-plain-branch-not-ready
+            self.node.content is Branch && self.node.content->Branch_0.needs@.len() == 0 && !self.node.content->Branch_0.r#else ==> !ret && *final(h) == *old(h),
+//@@ proof after=siblings#1
+                proof {
+                    if parent_tid(self.id@) is None { assert(tids(siblings@) =~= Seq::<Tid>::empty()); assert(tids(siblings@).to_set() =~= Set::<Tid>::empty()); }
+                    lemma_seq_set(siblings@, sib_set(*old(h), self.id@));
+                    assert forall|j: int| 0 <= j < siblings@.len() implies sib_set(*old(h), self.id@).contains((#[trigger] siblings@[j]).id@) by {}
+                }
+//@@ loop 1
+        invariant
+            //# needs-count
+            *h == *old(h) && tasks_ok(*h, __v1@) && (__cnt > 0 <==> exists|j: int| 0 <= j < __i1 && st_terminal(h.st((#[trigger] __v1@[j]).id@)) && needs_has(n.needs@, __v1@[j].node.id@)) && __cnt <= __i1,
+//@@ loop 2
+        invariant
+            //# all-skipped-so-far
+            *h == *old(h) && tasks_ok(*h, __v2@) && (__all <==> forall|j: int| 0 <= j < __i2 ==> h.st((#[trigger] __v2@[j]).id@) is Skipped),
+//@@ loop 3
+        invariant
+            //# any-closed-so-far
+            *h == *old(h) && tasks_ok(*h, __v3@),
+//@@ end
 }
 // Context::sched_task: one new task in state None on `node`, hanging off the current task, pushed to the queue
 pub open spec fn sched_spec(h: Heap, node: Arc<Node>, n: Tid) -> Heap {
